@@ -35,6 +35,7 @@ def main():
     ap.add_argument("--checks", default="C16,C06,C13,C17")
     ap.add_argument("--seeded", action="store_true")
     ap.add_argument("--all-checks", action="store_true", help="run every check, not only the ones expected to catch the mutant")
+    ap.add_argument("--keep-replays", default="", help="directory that receives the minimised replay files, one sub-directory per mutant")
     ap.add_argument("ids", nargs="*")
     a = ap.parse_args()
     items = []
@@ -46,13 +47,19 @@ def main():
     else:
         for m in json.load(open(os.path.join(VERIF, "mutants", "mutants.json"))):
             items.append((m["id"], os.path.join(VERIF, "mutants", m["id"] + ".patch"), m["expected_caught_by"], m.get("negative_control", False)))
-    if a.ids: items = [i for i in items if any(i[0].startswith(x) for x in a.ids)]
+    if a.ids: items = [i for i in items if any(i[0].startswith(x) or os.path.basename(i[0]).startswith(x) for x in a.ids)]
     allc = a.checks.split(",")
     out = {}
     for name, patch, expected, neg in items:
         checks = allc if a.all_checks else [c for c in allc if c in expected] or allc
+        sens_out = os.path.join(VERIF, "build", "tmp", "sens_out")
+        shutil.rmtree(os.path.join(sens_out, "replays"), ignore_errors=True)
         r = run_mutant(name, patch, checks, a.scale)
         out[name] = r
+        if a.keep_replays and os.path.isdir(os.path.join(sens_out, "replays")):
+            dst = os.path.join(a.keep_replays, name.replace("/", "_"))
+            os.makedirs(dst, exist_ok=True)
+            for f in glob.glob(os.path.join(sens_out, "replays", "*.json")): shutil.copy(f, dst)
         caught = [c for c, v in r.items() if isinstance(v, dict) and v.get("exit") == 1]
         status = ("NEGATIVE-CONTROL " + ("quiet (good)" if not caught else "ALARM (bad): %s" % caught)) if neg else ("CAUGHT by %s" % ",".join(caught) if caught else "MISSED")
         print("%-36s %s" % (name, status)); sys.stdout.flush()
